@@ -104,6 +104,8 @@ def _plen(p):
         return _len(p[1])
     if p[2].get('sepchar'):
         return 1
+    if p[2].get('len') is not None:
+        return SxInt.wrap(p[2]['len'])
     return SxInt.wrap(z3.Length(p[1]))
 
 
@@ -134,7 +136,7 @@ def text_eq(x, y):
         for p in other:
             if p[0] == 'lit' or p[2].get('nonempty') or p[2].get('sepchar'):
                 return False
-        return core.And(*[SxInt.wrap(z3.Length(p[1])) == 0 for p in other])
+        return core.And(*[_plen(p) == 0 for p in other])
     # a literal against a single symbolic piece that cannot contain one of its characters
     for a, b in ((px, py), (py, px)):
         if _len(a) == 1 and a[0][0] == 'lit' and _len(b) == 1 and b[0][0] == 'sym':
@@ -164,7 +166,10 @@ def text_eq(x, y):
         break
     if not px and not py:
         return True
-    return mkbool(term_of(mk(px)) == term_of(mk(py)))
+    rx_, ry_ = mk(px), mk(py)
+    lx, ly = sx_len(rx_), sx_len(ry_)
+    # lengths kept as plain Int variables are not tied to the string terms: state the link here
+    return core.Or(core.And(lx == 0, ly == 0), core.And(lx == ly, mkbool(term_of(rx_) == term_of(ry_))))
 
 
 class Text:
@@ -504,6 +509,17 @@ def atom(name, nosep='/\\', nonempty=True, declare=True):
     return mk([('sym', t, dict(nosep=nosep, nonempty=nonempty))])
 
 
+def opaque(name):
+    """fresh text of arbitrary content whose length is a plain Int variable (no sequence reasoning:
+    for code that only moves the text around, measures and encodes it)"""
+    e = E()
+    t = z3.String('%s!%d' % (name, next(e.fresh)))
+    n = e.newvar(name + '_chars', z3.IntSort())
+    e.inputs[name + '_chars'] = n
+    e.add(n >= 0)
+    return mk([('sym', t, dict(nosep='', nonempty=False, len=n))])
+
+
 def sepchar(name):
     """a single character that is '/' or '\\' (no fork)"""
     e = E()
@@ -530,7 +546,9 @@ def encode(t, enc='utf-8'):
             key = p[1].sexpr()
             if key not in cache:
                 ln = e.newvar('utf8len', z3.IntSort())
-                e.add(ln >= z3.Length(p[1]), ln <= 4 * z3.Length(p[1]))
+                e.inputs['utf8len:' + _str(p[1]).split('!')[0]] = ln
+                n = core.int_term(_plen(p))
+                e.add(ln >= n, ln <= 4 * n)
                 b = rope.Blob('utf8_%d' % _len(cache), ln,
                               meta={'utf8_of': p, 'excludes': p[2].get('nosep', '').encode('utf-8')})
                 cache[key] = b
